@@ -39,7 +39,7 @@ class Contract:
     def __init__(self, qualname, types=None, requires=None, ensures=None, returns=None, reads=None,
                  modifies=None, raises="never", props=None, result_type=None, native_effect=None,
                  assumed=False, note=None, alternatives=None, setup=None, inline_in_callers=False,
-                 hints=None, lets=None, use_at_calls=True, pure=False, ghost=None, cost=None):
+                 hints=None, lets=None, use_at_calls=True, pure=False, ghost=None, cost=None, pure_args=None):
         self.qualname = qualname
         self.types = types or {}
         self.requires = requires or {}
@@ -56,6 +56,7 @@ class Contract:
         self.setup = setup
         self.hints = hints or []
         self.lets = lets or {}
+        self.pure_args = pure_args  # names of arguments whose object graphs must be left unchanged
         self.ghost = ghost or {}  # ghost parameters (symbols the contract is universally quantified over)
         self.cost = cost
         self.pure = pure  # True: the call must leave every object that existed before it unchanged
